@@ -37,3 +37,10 @@
 (define-fun-rec dotacc ((u (Array Int (Array Int Int))) (v (Array Int (Array Int Int))) (k Int) (n Int)) Int
   (ite (<= n 0) 0 (+ (dotacc u v k (- n 1))
       (- (* (select (select u (- n 1)) k) (select (select v (- n 1)) k)) (* (MontT (* (select (select u (- n 1)) k) (select (select v (- n 1)) k))) DQ)))))
+; number of non-zero entries among h[0..n) (hint weight), and over the rows H[0..i) of a K x 256 hint matrix
+(declare-fun nzup ((Array Int Int) Int) Int)
+(assert (forall ((h (Array Int Int))) (! (= (nzup h 0) 0) :pattern ((nzup h 0)))))
+(assert (forall ((h (Array Int Int)) (n Int)) (! (=> (>= n 0) (= (nzup h (+ n 1)) (+ (nzup h n) (ite (= (select h n) 0) 0 1)))) :pattern ((nzup h (+ n 1))))))
+(declare-fun nz2up ((Array Int (Array Int Int)) Int) Int)
+(assert (forall ((H (Array Int (Array Int Int)))) (! (= (nz2up H 0) 0) :pattern ((nz2up H 0)))))
+(assert (forall ((H (Array Int (Array Int Int))) (i Int)) (! (=> (>= i 0) (= (nz2up H (+ i 1)) (+ (nz2up H i) (nzup (select H i) 256)))) :pattern ((nz2up H (+ i 1))))))
